@@ -1,6 +1,7 @@
 import CV.Proofs.StaticPath
 import CV.Proofs.Ranges
 import CV.Proofs.RangesMultipart
+import CV.Proofs.StaticListing
 /-
 C16 - Static files: only contents from inside the document root, exact byte ranges.
 
@@ -349,5 +350,241 @@ example : serveCond 4300 true true exLm (some exLm) (some exLm) (some ['b', 'y',
 example : serveCond 4300 true false exLm none (some exLm) none exFile = .s412 := by decide
 example : serveCond 4300 true true exLm (some exLm) (some ['T', 'u', 'e']) (some ['b', 'y', 't', 'e', 's', '=', '1', '-', '2']) exFile =
     .ranged (.single 2 ⟨1, 2, 7, [11, 12]⟩) := by decide
+
+end CV.C16
+
+/-! ## Directory listings (extension V7): which names a listing shows and where its links lead
+
+Model: `CV.StaticListing` (the `dirlisting` branch of `Static._on_request` after the fix
+"percent-encode the parent link of a directory listing").  `ls : Str → List Str` answers
+`os.listdir`; `LsOk fs dir (ls dir)` says that it reports the children of `dir` in `fs`, each once. -/
+namespace CV.C16
+open CV.StaticPath CV.StaticListing
+
+/-- C16.listing_exact: when the dispatcher answers with a listing, it is the listing of the
+    directory the request path denotes, that directory lies inside the root, and the names shown
+    are exactly its children that are not hidden (no leading dot) - each once, in `os.listdir`'s
+    order, every one of them a node inside the root; nothing else is shown. -/
+theorem listing_exact (unq : Str → Str) (fs : FS) (ls : Str → List Str) (cfg : Cfg) (reqPath : Str) (l : Listing)
+    (hd : ProperRoot cfg.docroot) (hdef : ∀ c ∈ cfg.defaults, cleanSeg c = true)
+    (h : serveListing unq fs ls cfg reqPath = some l) (hls : LsOk fs l.loc (ls l.loc)) :
+    serve unq fs cfg reqPath = .listing l.loc ∧
+    specOk unq cfg reqPath (.listing l.loc) = true ∧
+    l.items.map (·.name) = (ls l.loc).filter (fun n => !hidden n) ∧
+    (l.items.map (·.name)).Nodup ∧
+    (∀ n, n ∈ l.items.map (·.name) ↔
+      (cleanSeg n = true ∧ (fs (l.loc ++ '/' :: n)).isSome = true ∧ hidden n = false)) ∧
+    (∀ n ∈ l.items.map (·.name), inRoot cfg.docroot (l.loc ++ '/' :: n) = true) := by
+  obtain ⟨rel, _, _, hserve, _, hitems⟩ := serveListing_some unq fs ls cfg reqPath l h
+  have hspec := content_exact unq fs cfg reqPath hd hdef
+  rw [hserve] at hspec
+  have hin : inRoot cfg.docroot l.loc = true := contained unq fs cfg reqPath l.loc hd hdef (Or.inr hserve)
+  have hnames : l.items.map (·.name) = (ls l.loc).filter (fun n => !hidden n) := by
+    rw [hitems]; exact entries_names fs cfg rel (ls l.loc)
+  have hmem : ∀ n, n ∈ l.items.map (·.name) ↔
+      (cleanSeg n = true ∧ (fs (l.loc ++ '/' :: n)).isSome = true ∧ hidden n = false) := by
+    intro n
+    rw [hnames, List.mem_filter, hls.2 n]
+    constructor
+    · rintro ⟨⟨a, b⟩, c⟩; exact ⟨a, b, by simpa using c⟩
+    · rintro ⟨a, b, c⟩; exact ⟨⟨a, b⟩, by simp [c]⟩
+  refine ⟨hserve, hspec, hnames, ?_, hmem, ?_⟩
+  · rw [hnames]; exact hls.1.filter _
+  · intro n hn
+    exact inRoot_extend cfg.docroot l.loc n hin ((hmem n).1 hn).1
+
+/-- C16.listing_links_inside_root (containment half, full strength): whatever the request path and
+    whatever the names in the directory, following ANY href of the listing page (an entry's or
+    the parent link) through the dispatcher - prefix test, strip, percent-decoding, normalisation,
+    containment test - is answered by pass / not-found or by a node inside the root that is the
+    node the href denotes; never by anything outside the root. -/
+theorem listing_links_inside_root (unq : Str → Str) (fs : FS) (ls : Str → List Str) (cfg : Cfg) (reqPath : Str)
+    (l : Listing) (hd : ProperRoot cfg.docroot) (hdef : ∀ c ∈ cfg.defaults, cleanSeg c = true)
+    (_h : serveListing unq fs ls cfg reqPath = some l) (href : Str) (_hh : href ∈ l.hrefs) :
+    specOk unq cfg href (serve unq fs cfg href) = true ∧
+    ∀ loc', (serve unq fs cfg href = .file loc' ∨ serve unq fs cfg href = .listing loc') →
+      inRoot cfg.docroot loc' = true :=
+  ⟨content_exact unq fs cfg href hd hdef, fun loc' h' => contained unq fs cfg href loc' hd hdef h'⟩
+
+/-- C16.parent_link_inside_root_or_absent: a listing requested at the root of the mount (the part
+    of the request path behind the prefix is empty after stripping the slashes and decoding) has
+    no parent link; any other listing's parent link, followed through the dispatcher, is answered
+    from inside the root or not at all. -/
+theorem parent_link_inside_root_or_absent (unq : Str → Str) (fs : FS) (ls : Str → List Str) (cfg : Cfg)
+    (reqPath : Str) (l : Listing) (hd : ProperRoot cfg.docroot) (hdef : ∀ c ∈ cfg.defaults, cleanSeg c = true)
+    (h : serveListing unq fs ls cfg reqPath = some l) :
+    (relOf unq cfg reqPath = some [] → l.up = none) ∧
+    ∀ up, l.up = some up → ∀ loc', (serve unq fs cfg up = .file loc' ∨ serve unq fs cfg up = .listing loc') →
+      inRoot cfg.docroot loc' = true := by
+  obtain ⟨rel, hrel, _, _, hup, _⟩ := serveListing_some unq fs ls cfg reqPath l h
+  refine ⟨?_, fun up _ loc' h' => contained unq fs cfg up loc' hd hdef h'⟩
+  intro h0
+  rw [hrel] at h0
+  cases h0
+  rw [hup]; simp [parentLink]
+
+/-! ### does a link lead back to its entry?  (decided instances; the general statement is validated
+    by the correspondence check on hostile names, see `harness/c16_listing.py`) -/
+
+def exLRoot : Str := "/b/r".toList
+def exLFs : FS := fun p =>
+  if p = "/b/r".toList ∨ p = "/b/r/p%41".toList ∨ p = "/b/r/p%41/s".toList ∨ p = "/b/r/pA".toList then some .dir
+  else if p = "/b/r/p%41/s/f".toList ∨ p = "/b/r/é\"# ?".toList ∨ p = "/b/r/.h".toList ∨ p = "/b/t".toList then some .file
+  else none
+def exLs : Str → List Str := fun p =>
+  if p = "/b/r".toList then [".h".toList, "p%41".toList, "é\"# ?".toList, "pA".toList]
+  else if p = "/b/r/p%41".toList then ["s".toList]
+  else if p = "/b/r/p%41/s".toList then ["f".toList]
+  else []
+def exLCfg (pfx : Option Str) : Cfg := ⟨exLRoot, pfx, ["index.html".toList], true⟩
+
+/-- hostile names (percent sequence that decodes to another existing name, quote, `#`, `?`, space,
+    non-ASCII, hidden file): the hidden file is not shown, every shown link leads back to its own
+    entry, at `/` and under a mount prefix, and the listing at the root has no parent link. -/
+theorem listing_hostile_names_lead_back :
+    (serveListing unquote exLFs exLs (exLCfg none) "/".toList).map
+        (fun l => (l.items.map (·.name), l.up, l.items.all (leadsTo unquote exLFs (exLCfg none) l.loc)))
+      = some (["p%41".toList, "é\"# ?".toList, "pA".toList], none, true) ∧
+    (serveListing unquote exLFs exLs (exLCfg (some "/m".toList)) "/m/p%2541/".toList).map
+        (fun l => (l.items.map (·.href), l.up, l.items.all (leadsTo unquote exLFs (exLCfg (some "/m".toList)) l.loc)))
+      = some (["/m/p%2541/s/".toList], some "/m/p%2541/..".toList, true) := by decide
+
+/-- The parent link as the code wrote it before the fix (not percent-encoded): below the
+    directory `p%41` it pointed to `/p%41`, which the dispatcher decodes to the OTHER directory
+    `pA`; the repaired link leads to the parent. -/
+theorem legacy_parent_link_unescaped_witness :
+    parentLinkLegacy (exLCfg none) "p%41/s".toList = some "/p%41".toList ∧
+    serve unquote exLFs (exLCfg none) "/p%41".toList = .listing "/b/r/pA".toList ∧
+    parentLink (exLCfg none) "p%41/s".toList = some "/p%2541".toList ∧
+    serve unquote exLFs (exLCfg none) "/p%2541".toList = .listing "/b/r/p%41".toList := by decide
+
+/-- KNOWN FINDING `listing-link-dead(absolute-request-path)`: the full statement "every entry link
+    leads back to its entry" fails for a request path that spells the directory as an absolute
+    file-system path (`/%2Fb%2Fr%2Fp%2541`): the right directory is listed, but its link
+    `/b/r/p%2541/s/` is answered with pass (inside the root nothing is called `b/r/...`). -/
+theorem listing_link_dead_witness :
+    (serveListing unquote exLFs exLs (exLCfg none) "/%2Fb%2Fr%2Fp%2541".toList).map
+        (fun l => (l.loc, l.items.map (·.href), l.items.map (leadsTo unquote exLFs (exLCfg none) l.loc)))
+      = some ("/b/r/p%41".toList, ["/b/r/p%2541/s/".toList], [false]) ∧
+    serve unquote exLFs (exLCfg none) "/b/r/p%2541/s/".toList = .pass := by decide
+
+/-- A mount prefix containing a character that `quote` encodes can never be linked to: the hrefs
+    start with the encoded prefix, which fails the dispatcher's own (undecoded) prefix test. -/
+theorem listing_unlinkable_prefix_witness :
+    (serveListing unquote exLFs exLs (exLCfg (some "/a b".toList)) "/a b/p%2541".toList).map
+        (fun l => (l.items.map (·.href), l.items.map (leadsTo unquote exLFs (exLCfg (some "/a b".toList)) l.loc)))
+      = some (["/a%20b/p%2541/s/".toList], [false]) := by decide
+
+/-- C16.listing_links_inside_root, "leads back" half (`_partial`: three hypotheses, see below).
+    FULL STATEMENT (fails, see the witnesses): every href of a listing, followed through the
+    dispatcher, is answered by the entry it stands for.
+    PROVED: for every decoder, file system, mount prefix, request path and directory content - if
+      (1) the decoded request path is not absolute (else: KNOWN FINDING, `listing_link_dead_witness`),
+      (2) the mount prefix is linkable: absent / empty, or absolute and made of characters `quote`
+          leaves alone (else: `listing_unlinkable_prefix_witness`),
+      (3) the decoder undoes `quote` on the child path `join rel name` (true for `urllib`'s pair on
+          every valid string; validated by the check on hostile names, not proved for `unquote`),
+    then the entry `e` of the listing stands for the child `loc/name` inside the root, its directory
+    marker says whether that child is a directory, and its href is answered by exactly that child:
+    the file itself; for a directory its listing, or one of its default documents (or 404 if that
+    default document is itself a directory). Names with `%`, `#`, `?`, quotes, spaces, `..x`,
+    non-ASCII are covered: no hypothesis on the name beyond being a directory entry. -/
+theorem listing_link_leads_to_entry_partial (unq : Str → Str) (fs : FS) (ls : Str → List Str) (cfg : Cfg)
+    (reqPath rel : Str) (l : Listing) (e : Entry)
+    (hd : ProperRoot cfg.docroot) (hdef : ∀ c ∈ cfg.defaults, cleanSeg c = true)
+    (h : serveListing unq fs ls cfg reqPath = some l) (hrel : relOf unq cfg reqPath = some rel)
+    (hls : LsOk fs l.loc (ls l.loc)) (he : e ∈ l.items)
+    (hnabs : rel.head? ≠ some '/') (hp : LinkablePrefix cfg.pfx)
+    (hrt : unq (quote (join rel e.name)) = join rel e.name) :
+    inRoot cfg.docroot (l.loc ++ '/' :: e.name) = true ∧
+    e.isDir = (fs (l.loc ++ '/' :: e.name) == some Kind.dir) ∧
+    (fs (l.loc ++ '/' :: e.name) = some .file → serve unq fs cfg e.href = .file (l.loc ++ '/' :: e.name)) ∧
+    (fs (l.loc ++ '/' :: e.name) = some .dir →
+      serve unq fs cfg e.href = .listing (l.loc ++ '/' :: e.name) ∨
+      serve unq fs cfg e.href = .notfound ∨
+      ∃ c ∈ cfg.defaults, serve unq fs cfg e.href = .file ((l.loc ++ '/' :: e.name) ++ '/' :: c)) := by
+  obtain ⟨rel', hrel', hsrv, hserve, _, hitems⟩ := serveListing_some unq fs ls cfg reqPath l h
+  rw [hrel] at hrel'
+  cases hrel'
+  rw [hitems] at he
+  unfold entries at he
+  rw [List.mem_map] at he
+  obtain ⟨n, hn, rfl⟩ := he
+  rw [List.mem_filter] at hn
+  have hclean : cleanSeg n = true := ((hls.2 n).1 hn.1).1
+  have hin : inRoot cfg.docroot l.loc = true := contained unq fs cfg reqPath l.loc hd hdef (Or.inr hserve)
+  obtain ⟨_, _, hentry, _, _⟩ := child_lookup fs cfg rel n l.loc hd hsrv hnabs hclean
+  have hdec : relOf unq cfg (entryOf fs cfg rel n).href = some (join rel n) := by
+    show relOf unq cfg (quote (entryUrl cfg rel n) ++ _) = _
+    apply entry_href_decodes unq cfg rel n _ hp hnabs hclean _ hrt
+    split
+    · exact Or.inr rfl
+    · exact Or.inl rfl
+  have hs : serve unq fs cfg (entryOf fs cfg rel n).href = serveRel fs cfg (join rel n) := by
+    unfold serve; rw [hdec]
+  obtain ⟨hf, hdir⟩ := child_served fs cfg rel n l.loc hd hdef hsrv hnabs hclean
+  refine ⟨inRoot_extend cfg.docroot l.loc n hin hclean, ?_, ?_, ?_⟩
+  · show (fs (entryLoc cfg rel n) == some Kind.dir) = _
+    rw [hentry]; rfl
+  · intro hk; rw [hs]; exact hf hk
+  · intro hk; rw [hs]; exact hdir hk
+
+/-- The same for the model of `urllib.parse.unquote` itself when the decoded request path and the
+    name are ASCII (any ASCII: `%41`, `#`, `?`, quotes, spaces, controls): hypothesis (3) is then a
+    theorem (`unquote_quote_ascii`). For non-ASCII names (3) is validated by the check only. -/
+theorem listing_link_leads_to_entry_ascii_partial (fs : FS) (ls : Str → List Str) (cfg : Cfg)
+    (reqPath rel : Str) (l : Listing) (e : Entry)
+    (hd : ProperRoot cfg.docroot) (hdef : ∀ c ∈ cfg.defaults, cleanSeg c = true)
+    (h : serveListing unquote fs ls cfg reqPath = some l) (hrel : relOf unquote cfg reqPath = some rel)
+    (hls : LsOk fs l.loc (ls l.loc)) (he : e ∈ l.items)
+    (hnabs : rel.head? ≠ some '/') (hp : LinkablePrefix cfg.pfx)
+    (ha1 : ∀ c ∈ rel, c.toNat < 128) (ha2 : ∀ c ∈ e.name, c.toNat < 128) :
+    inRoot cfg.docroot (l.loc ++ '/' :: e.name) = true ∧
+    e.isDir = (fs (l.loc ++ '/' :: e.name) == some Kind.dir) ∧
+    (fs (l.loc ++ '/' :: e.name) = some .file → serve unquote fs cfg e.href = .file (l.loc ++ '/' :: e.name)) ∧
+    (fs (l.loc ++ '/' :: e.name) = some .dir →
+      serve unquote fs cfg e.href = .listing (l.loc ++ '/' :: e.name) ∨
+      serve unquote fs cfg e.href = .notfound ∨
+      ∃ c ∈ cfg.defaults, serve unquote fs cfg e.href = .file ((l.loc ++ '/' :: e.name) ++ '/' :: c)) := by
+  apply listing_link_leads_to_entry_partial unquote fs ls cfg reqPath rel l e hd hdef h hrel hls he hnabs hp
+  apply unquote_quote_ascii
+  intro c hc
+  rcases join_mem rel e.name c hc with h1 | h1 | h1
+  · exact ha1 c h1
+  · exact ha2 c h1
+  · subst h1; decide
+
+-- non-vacuity of the hypotheses of the three general theorems
+example : ProperRoot exLRoot := ⟨'b', ['/', 'r'], by decide, by decide, by decide⟩
+example : ∀ c ∈ (exLCfg none).defaults, cleanSeg c = true := by decide
+example : (serveListing unquote exLFs exLs (exLCfg none) "/p%2541/".toList).map (·.hrefs)
+    = some ["/".toList, "/p%2541/s/".toList] := by decide
+example : relOf unquote (exLCfg (some "/m".toList)) "/m/".toList = some [] := by decide
+example : LinkablePrefix (exLCfg (some "/m".toList)).pfx := by
+  intro p hp _
+  have : p = "/m".toList := by simpa [exLCfg] using hp.symm
+  subst this; decide
+example : (entryOf exLFs (exLCfg none) "p%41".toList "s".toList) ∈ entries exLFs (exLCfg none) "p%41".toList (exLs "/b/r/p%41".toList) ∧
+    relOf unquote (exLCfg none) "/p%2541/".toList = some "p%41".toList ∧
+    unquote (quote (join "p%41".toList "s".toList)) = join "p%41".toList "s".toList := by decide
+example : (∀ c ∈ "p%41".toList, c.toNat < 128) ∧ (∀ c ∈ "s".toList, c.toNat < 128) := by decide
+example : LsOk exLFs "/b/r/p%41".toList (exLs "/b/r/p%41".toList) := by
+  refine ⟨by decide, fun n => ?_⟩
+  constructor
+  · intro hn
+    have : n = "s".toList := by simpa [exLs] using hn
+    subst this; decide
+  · rintro ⟨hc, hf⟩
+    have hn : n = "s".toList := by
+      unfold exLFs at hf
+      by_cases h1 : ("/b/r/p%41".toList ++ '/' :: n) = "/b/r/p%41/s".toList
+      · simpa using h1
+      · exfalso
+        have hc' := (cleanSeg_iff n).1 hc
+        by_cases h2 : ("/b/r/p%41".toList ++ '/' :: n) = "/b/r/p%41/s/f".toList
+        · have : n = "s/f".toList := by simpa using h2
+          subst this; exact absurd hc (by decide)
+        · simp_all
+    subst hn; decide
 
 end CV.C16
